@@ -12,11 +12,28 @@ def rng_for(seed, *tags):
     return np.random.default_rng(int.from_bytes(h[:8], 'little'))
 
 
+_scratch_n = [0]
+
+
+def reset_scratch():
+    """called by the worker before every case: scratch directories are handed out as <worker dir>/case/d0, d1, ... so
+    that the SAME file names recur from case to case inside one worker process.  Anything the subject remembers per
+    file name (memoised headers, expanded images, ...) is then hit with different content and the oracle of the later
+    case sees it."""
+    import shutil
+    _scratch_n[0] = 0
+    base = os.environ.get('AEGMON_SCRATCH')
+    if base:
+        shutil.rmtree(os.path.join(base, 'case'), ignore_errors=True)
+
+
 def scratch_dir():
     base = os.environ.get('AEGMON_SCRATCH')
     if base:
-        os.makedirs(base, exist_ok=True)
-        return tempfile.mkdtemp(dir=base)
+        d = os.path.join(base, 'case', 'd%d' % _scratch_n[0])
+        _scratch_n[0] += 1
+        os.makedirs(d, exist_ok=True)
+        return d
     return tempfile.mkdtemp(prefix='aegmon_')
 
 
